@@ -84,7 +84,18 @@ pub struct Scenario {
     pub common: Option<BTreeMap<String, String>>,
 }
 
-const NAMES: &[&str] = &["a", "a_b", "ab", "a_total", "b", "a_b_c", "aa", "z", "b_a", "c", "total"];
+// (the last two names have the same 64-bit FNV-1a hash, see pools::FNV64_COLLISION)
+const NAMES: &[&str] = &["a", "a_b", "ab", "a_total", "b", "a_b_c", "aa", "z", "b_a", "c", "total", "mqhmlpemtukl3g", "mjopqa3bdnatil"];
+
+/// Both names of the known FNV-1a collision are in the scenario with equal constant-label values: their descriptors then
+/// have the same id and the second registration is refused (the known finding recorded under C15); such scenarios are
+/// excluded, scenarios where the constant-label values differ are not.
+pub fn collision_pair_blocks_registration(s: &Scenario) -> bool {
+    let (x, y) = crate::pools::FNV64_COLLISION;
+    let vals = |n: &str| -> Vec<Vec<String>> { s.colls.iter().filter(|c| c.name == n).map(|c| c.consts.values().cloned().collect()).collect() };
+    let (vx, vy) = (vals(x), vals(y));
+    vx.iter().any(|v| vy.contains(v))
+}
 const HELPS: &[&str] = &["h", "help b", "é"];
 const CNAMES: &[&str] = &["c", "a", "zz", "k"];
 const VNAMES: &[&str] = &["b", "l", "y", "aa"];
